@@ -799,6 +799,7 @@ _orig_eval = vlib.coq_eval_cases
 def _eval_sharded(prop, check_module, terms, preamble="", shard=400, timeout=900):
     if prop == "C15":
         shard = max(2, (len(terms) + vlib.NCPU - 1) // vlib.NCPU)
+        timeout = max(timeout, 3000)   # a loaded machine must not turn into an alarm
     return _orig_eval(prop, check_module, terms, preamble=preamble, shard=shard, timeout=timeout)
 
 
